@@ -9,6 +9,7 @@ import (
 	"flag"
 	"fmt"
 	"os"
+	"path/filepath"
 	"runtime"
 	"syscall"
 
@@ -64,6 +65,17 @@ func main() {
 		}
 	}
 	for i := *from; i < len(ops); i++ {
+		if ops[i].Kind == "import" && (ops[i].Content != "" || ops[i].Raw != nil) {
+			// the file the reference run imported is gone with its session: write it again, here
+			fdir := *dir + ".files"
+			os.MkdirAll(fdir, 0o755)
+			ops[i].Path = filepath.Join(fdir, filepath.Base(ops[i].Path))
+			content := []byte(ops[i].Content)
+			if ops[i].Raw != nil {
+				content = ops[i].Raw
+			}
+			os.WriteFile(ops[i].Path, content, 0o644)
+		}
 		cur = i
 		fmt.Fprintf(logf, "S %d\n", i)
 		h.Deco.Arm(0, false)
